@@ -20,7 +20,7 @@ META = {
         "exact clauses use an explicit roughness length exp(-12..-3) m; the implicit-roughness path is exercised for the imbalance clauses and points whose roughness is NaN are counted as undefined_roughness (C10 allows NaN)",
         "'no downwind component' is asserted where cos(theta-theta_w) <= -1e-9 (the bins within rounding of exactly 90 degrees may go either way)",
         "linearity in E at fixed roughness: 1e-12 relative; bulk = sum(rate*df*dtheta) with independently computed steps: 1e-10 relative to sum|terms| (fastmath reduction)",
-        "batch independence is bit-for-bit against the single-point evaluation",
+        "batch independence: each point equals its single-point evaluation within 1e-13 of the field maximum (bit-for-bit equality of jitted kernels is not stable across machines)",
     ],
 }
 
@@ -144,10 +144,12 @@ def run(c):
     s1 = W.build(c, Eb[j:j + 1], [depth[j]])
     R1 = np.asarray(gen.rate(s1, W.da([speed_v[j]], s1), W.da([wdir_v[j]], s1), roughness_length=W.da([float(z0.values[j])], s1),
                              wind_speed_input_type=it).values)
-    require(R1[0].tobytes() == R[j].tobytes(), "batch_point_equals_single_evaluation_wind_input",
+    require(np.abs(R1[0] - R[j]).max() <= 1e-13 * max(float(np.abs(R[j]).max()), 1e-300),
+            "batch_point_equals_single_evaluation_wind_input",
             lambda: f"point {j} max diff={np.abs(R1[0] - R[j]).max()!r}")
     D1 = np.asarray(dis.rate(s1).values)
-    require(D1[0].tobytes() == D[j].tobytes(), "batch_point_equals_single_evaluation_dissipation",
+    require(np.abs(D1[0] - D[j]).max() <= 1e-13 * max(float(np.abs(D[j]).max()), 1e-300),
+            "batch_point_equals_single_evaluation_dissipation",
             lambda: f"point {j} max diff={np.abs(D1[0] - D[j]).max()!r}")
 
     # imbalance (implicit roughness; u10 input only)
